@@ -866,7 +866,16 @@ class Replayer:
         for v in vs:
             st['n'] += 1
             st['by_variant'][v] = st['by_variant'].get(v, 0) + 1
-            for mm in replay_history(rec, v, self.identity, st):
+            try:
+                found = replay_history(rec, v, self.identity, st)
+            except Setup:
+                raise
+            except (KeyError, AttributeError, TypeError, IndexError, ValueError) as e:
+                # the harness could not even read the real objects after an operation (a missing storage slot, an object of
+                # another class where a Trace was): damage done by the code under test, reported like any other disagreement
+                import traceback
+                found = [{'key': f'history-leaves-unreadable-objects-{type(e).__name__}', 'step': -1, 'detail': traceback.format_exc()[-600:]}]
+            for mm in found:
                 n = st['keys'].get(mm['key'], 0)
                 st['keys'][mm['key']] = n + 1
                 if n < 1:
